@@ -414,16 +414,26 @@ def run(ctx):
             nontriv = job.np >= 2 and (count >= 1 or kind % 100 == 16)
             exercised.add((job.coll, job.algo))
             sigbase = "%s:%s" % (job.coll, job.algo)
+            # degenerate configurations (one rank, zero count) get their own signatures, so that a known defect there never
+            # hides a violation of the same algorithm on ordinary configurations
+            degs = (["@np1"] if job.np == 1 else []) + (["@count0"] if count == 0 else [])
+
+            def dsig(x, degs=degs):
+                cands = [x] + [x + d for d in degs]
+                for c in cands:
+                    if c in ctx.known:
+                        return c
+                return cands[-1]
             if res is None:
                 ctx.case(key, nontriv)
-                ctx.fail(sigbase + ":no-output", "%s algorithm %s np=%d %s root=%d count=%d: no output" % (job.coll, job.algo, job.np, KNAME[kind % 100], root, count), cd)
+                ctx.fail(dsig(sigbase + ":no-output"), "%s algorithm %s np=%d %s root=%d count=%d: no output" % (job.coll, job.algo, job.np, KNAME[kind % 100], root, count), cd)
                 continue
             if res["error"]:
                 ctx.case(key, nontriv)
                 if res["error"] == "explicit":
                     dist["explicit_error"] += 1
                 else:
-                    ctx.fail("%s:%s" % (sigbase, res["error"]),
+                    ctx.fail(dsig("%s:%s" % (sigbase, res["error"])),
                              "%s algorithm %s, np=%d, %s root=%d count=%d mode=%d: the run ends with %s instead of a result or an explicit error: %s"
                              % (job.coll, job.algo, job.np, KNAME[kind % 100], root, count, mode, res["error"], res["message"][-500:]), cd)
                 continue
@@ -470,14 +480,14 @@ def run(ctx):
                 sample = dict(cd, observation_rank0=fmt_runs(parse_runs(ranks[0][2])[0]), verdict="coll_ok")
             ctx.case(key, nontriv, sample)
             if bad:
-                ctx.fail("%s:wrong" % sigbase, head + (" (reweighted data)" if mode > 0 else "") + ": " + explain(kind, job.np, root, count, ranks, bad), cd)
+                ctx.fail(dsig("%s:wrong" % sigbase), head + (" (reweighted data)" if mode > 0 else "") + ": " + explain(kind, job.np, root, count, ranks, bad), cd)
             obliv.setdefault((id(job), kind, root, count), {})[mode] = [ranks[r][1] for r in range(job.np)]
         elif what == "barrier":
             ctx.case(key, nontriv)
             if q_barrier[q] != [1]:
                 ent = [ranks[r][2][4] for r in range(job.np)]
                 exi = [ranks[r][2][5] for r in range(job.np)]
-                ctx.fail("%s:wrong" % sigbase, head + ": a rank left the barrier at %d ns before the last one entered at %d ns" % (min(exi), max(ent)), cd)
+                ctx.fail(dsig("%s:wrong" % sigbase), head + ": a rank left the barrier at %d ns before the last one entered at %d ns" % (min(exi), max(ent)), cd)
         else:
             ctx.case(key, nontriv)
             exp = q_direct[q]
@@ -487,7 +497,7 @@ def run(ctx):
                 got += [v[0]] + list(v[1:1 + v[0]])
             if got != exp:
                 code = -1 - mode
-                ctx.fail("%s:direct-wrong" % sigbase, head + " %s %s: buffers %s, sequential reference %s" % (
+                ctx.fail(dsig("%s:direct-wrong" % sigbase), head + " %s %s: buffers %s, sequential reference %s" % (
                     ["int", "double"][code // 6], ["SUM", "PROD", "MAX", "MIN", "BXOR", "MAXLOC"][code % 6], got[:24], exp[:24]), cd)
     # obliviousness: same (kind, root, count) with different data must take the same simulated time on every rank
     nob, nobdiff = 0, 0
